@@ -286,6 +286,15 @@ Outcome run_run(const Plan & plan, const RunCtx & ctx)
           vals.push_back(i + 1);
       if (!vals.empty()) { tokens[vals[(size_t)(j->arg(0) % (i64)vals.size())]] = j->str(0); malformed = true; }
     }
+    else if (kind == 5) {                                                                        // the value of an INTEGER option replaced by a number no int can hold
+      std::vector<size_t> vals;
+      for (size_t i = 0; i + 1 < tokens.size(); i++) {
+        bool small_range = tokens[i] == "-l" || tokens[i] == "-m" || tokens[i] == "-n" || tokens[i] == "--nb-events" || tokens[i] == "--pgop-mdl-rank";
+        bool beyond64 = j->str(0).size() >= 20; // a seed may legitimately be wider than int; nothing holds 10^20
+        if (small_range || (tokens[i] == "-s" && beyond64)) vals.push_back(i + 1);
+      }
+      if (!vals.empty()) { tokens[vals[(size_t)(j->arg(0) % (i64)vals.size())]] = j->str(0); malformed = true; }
+    }
     else if (kind == 3 && s.basestyle != 4) { tokens.push_back("second-positional"); malformed = true; } // a second basename
     else if (kind == 4) { tokens.insert(tokens.begin(), "1"); tokens.insert(tokens.begin(), j->str(0)); malformed = true; } // near-miss spelling of a real option, with a value
   }
@@ -497,8 +506,9 @@ Plan gen_run(u64 seed, u64 idx, const RunCtx & ctx)
     static const std::vector<std::string> garbage = {"abc", "", "--", "-5"};
     static const std::vector<std::string> nearmiss = {"--pgop-mdl-cone-apperture", "--pgop-mdl-cone-aperture2", "--pgop-mdl-", "--pgop-mdl-cone", "--pgop-mdl-particles", "--pgop-xyz-rank",
                                                      "--dbd-emid", "--dbd-emin-MeV", "--seeds", "--nuclides", "--nb-event", "--levels", "--dbd-modes", "--activity-Bq", "--decay-categories", "--basenames", "--loggings", "-S", "-L", "-M"};
-    Op j; j.k = "junk"; u64 k = r.below(5);
-    j.a = {(i64)r.below(30), (i64)k}; j.s = {k == 0 ? r.pick(unknown) : (k == 1 ? r.pick(known) : (k == 2 ? r.pick(garbage) : (k == 4 ? r.pick(nearmiss) : std::string("x"))))};
+    static const std::vector<std::string> huge = {"4294967301", "4294967300", "4294967296", "8589934593", "2147483648", "99999999999999999999", "-4294967295"};
+    Op j; j.k = "junk"; u64 k = r.below(6);
+    j.a = {(i64)r.below(30), (i64)k}; j.s = {k == 0 ? r.pick(unknown) : (k == 1 ? r.pick(known) : (k == 2 ? r.pick(garbage) : (k == 4 ? r.pick(nearmiss) : (k == 5 ? r.pick(huge) : std::string("x")))))};
     p.ops.push_back(j);
   }
   u64 f = idx % 4;
